@@ -88,7 +88,9 @@ func c01Policies(thorough bool) []policy {
 	return out
 }
 
-var c01Paths = []string{"/", "/private", "/public/x", "/publicx", "/x/public2/y", "/public/..%2fprivate", "/private?/public/", "/private?next=/public2/", "/private%23/public/", "/oauth2/auth", "/favicon.ico", "/PUBLIC/x", "/HealthZ"}
+var c01Paths = []string{"/", "/private", "/public/x", "/publicx", "/x/public2/y", "/public/..%2fprivate", "/private?/public/", "/private?next=/public2/", "/private%23/public/", "/oauth2/auth", "/favicon.ico", "/PUBLIC/x", "/HealthZ",
+	// a path that matches an end-anchored pattern only once its trailing slash is taken away
+	"/healthz/"}
 
 func proxyYAML(p policy) string {
 	return "- service: svca\n  default:\n    from: " + hostA + "\n    to: {{backend:a}}\n    options:\n" + p.yamlOptions("      ") +
@@ -212,9 +214,10 @@ func c01Alphabet(thorough bool) authAlphabet {
 		Profile:  []harness.AuthAnswer{ans(200, `{"email":"x","groups":["eng"]}`), ans(200, `{"email":"x","groups":[]}`), ans(500, "boom"), ans(200, "malformed{"), ans(503, "unavailable")},
 	}
 	if thorough {
-		a.Validate = append(a.Validate, ans(429, "slow down"))
-		a.Refresh = append(a.Refresh, ans(429, "slow down"))
-		a.Profile = append(a.Profile, ans(429, "slow down"))
+		// (502 / 504: what a gateway in front of the authenticator answers; not an outage the grace period covers)
+		a.Validate = append(a.Validate, ans(429, "slow down"), ans(502, "bad gateway"))
+		a.Refresh = append(a.Refresh, ans(429, "slow down"), ans(504, "gateway timeout"))
+		a.Profile = append(a.Profile, ans(429, "slow down"), ans(502, "bad gateway"))
 	}
 	return a
 }
